@@ -21,6 +21,7 @@ class TableInfo:
     sub_select: ast.ASTNode = None
     predictor_info: dict = None
     join_condition = None
+    join_type: str = None
     index: int = None
 
 class PlanJoin:
@@ -186,6 +187,7 @@ class PlanJoinTablesQuery:
             sequence2 = self.get_join_sequence(node.right, condition=node.condition)
             if len(sequence2) != 1:
                 raise PlanningException('Unexpected join nesting behavior')
+            sequence2[0].join_type = node.join_type
 
             # put next table
             sequence.append(sequence2[0])
@@ -472,8 +474,19 @@ class PlanJoinTablesQuery:
         conditions = []
         data_conditions = []
 
+        join_type = (fetch_table.join_type or '').upper().split()
+        if join_type and join_type[0] in ('RIGHT', 'FULL'):
+            # every row of the right table is in the result of a RIGHT / FULL join: it can't be restricted
+            return []
+
         def _check_conditions(node, **kwargs):
             if not isinstance(node, BinaryOperation):
+                return
+
+            if node.op.lower() == 'and':
+                # only a top-level conjunct of ON restricts the joined table
+                for arg in node.args:
+                    _check_conditions(arg)
                 return
 
             if node.op != '=':
@@ -496,7 +509,8 @@ class PlanJoinTablesQuery:
             elif table2 is not None:
                 data_conditions.append([arg1, arg2])
 
-        query_traversal(fetch_table.join_condition, _check_conditions)
+        if fetch_table.join_condition is not None:
+            _check_conditions(fetch_table.join_condition)
 
         binary_ops.discard('and')
         if len(binary_ops) > 0:
